@@ -74,7 +74,7 @@ class Public(Case):
 
     def inputs(self, mk):
         p = self.params
-        return dict(specs=[shell_spec(mk, "ABCD"[i], l, K, M) for i, (l, K, M) in enumerate(zip(p["ls"], p["Ks"], p["Ms"]))])
+        return dict(specs=cm.specs_from(mk, p))
 
     def code(self, I, mk):
         _, f = _cls(self.params["op"])
@@ -110,12 +110,18 @@ def cases(tier):
         for la in range(lmax + 1):
             for lb in range(lmax + 1):
                 out.append(Block(op=op, la=la, lb=lb, Ka=1, Kb=1, Ma=1, Mb=1))
+        if tier == "quick":
+            # the top of the property's range (g shells) also in the quick tier
+            for la, lb in [(4, 0), (0, 4), (4, 1)]:
+                out.append(Block(op=op, la=la, lb=lb, Ka=1, Kb=1, Ma=1, Mb=1))
         for la, lb in [(1, 0), (0, 1), (1, 1), (2, 1)]:
             out.append(Block(op=op, la=la, lb=lb, Ka=2, Kb=1, Ma=1, Mb=2))
         out.append(Public(op=op, ls=[0, 1], types="cc", Ks=[2, 1], Ms=[1, 2]))
         out.append(Public(op=op, ls=[1, 0], types="cc", Ks=[1, 1], Ms=[1, 1]))
         out.append(Public(op=op, ls=[1], types="c", Ks=[2], Ms=[2]))
         out.append(Public(op=op, ls=[2, 1], types="sc", Ks=[1, 1], Ms=[1, 1]))
+        # homonuclear: the same shell parameters on two centres, a second shell on the first centre
+        out.append(Public(op=op, ls=[1, 1, 0], types="ccc", Ks=[1, 1, 1], Ms=[1, 1, 1], twin={"1": 0}, share={"2": 0}))
         if tier == "thorough":
             out.append(Public(op=op, ls=[1, 2], types="cs", Ks=[1, 2], Ms=[2, 1]))
             out.append(Public(op=op, ls=[2, 0, 1], types="scc", Ks=[1, 1, 1], Ms=[1, 1, 1]))
@@ -128,7 +134,7 @@ def cases(tier):
 def main(tier="quick", seed=0, only=None):
     cs = cm.parse_only(cases(tier), only)
     bounds = {
-        "angular_momenta": "block level: every ordered (la, lb) <= 3 (quick) / <= 4 (thorough), both operators, Level A",
+        "angular_momenta": "block level: every ordered (la, lb) <= 3 plus (4,0), (0,4), (4,1) (quick) / <= 4 (thorough), both operators, Level A",
         "public": "1-3 shells in different orders, cartesian / spherical / mixed, l <= 2 (3 in one thorough case)",
         "primitives": "K <= 2", "segments": "M <= 2", "outside": "floating-point rounding; larger K / M / shell counts",
     }
